@@ -38,7 +38,7 @@ INVS = ("INVARIANTS TypeOK C18_Deadline C18_FindsHealthy C18_TcpRetry C18_Untrus
 
 # the shape of the one root cause behind several give-up classes (see proposed/C18-findings.txt)
 UDP_DROPPED = "udp-only-servers-dropped-after-truncated-reply"
-PRIORITY = ["panic", "deadline-exceeded", "connect-timeout-not-honoured", "distinct-queries-shared-one-exchange", "exchange-not-shared", "shared-result-differs", "answer-without-exchange",
+PRIORITY = ["panic", "deadline-exceeded", "connect-timeout-not-honoured", "distinct-queries-shared-one-exchange", "requests-per-server-exceed-bound", "exchange-not-shared", "shared-result-differs", "answer-without-exchange",
             "nxdomain-without-exchange", "truncated-without-exchange", "untrusted-nx-ended-search",
             "truncated-not-retried-over-tcp", "busy-server-not-retried", "healthy-server-not-used",
             "request-for-another-query", "caller-never-completed", "unexpected-result"]
@@ -95,7 +95,8 @@ def run(res, tier, seed):
             ("MC_Pool_three", os.path.join(vlib.SPEC, "MC_Pool_three.cfg"), ("CallJoin", "Join")),
             ("MC_Pool_live", os.path.join(vlib.SPEC, "MC_Pool_live.cfg"), ("DeadlineInFlight",)),
             ("MC_Pool_busy", os.path.join(vlib.SPEC, "MC_Pool_busy.cfg"), ("CallJoin", "Join", "DeadlineInRound", "DeadlineInFlight")),
-            ("MC_Pool_sock", os.path.join(vlib.SPEC, "MC_Pool_sock.cfg"), ("Backoff",))]
+            ("MC_Pool_sock", os.path.join(vlib.SPEC, "MC_Pool_sock.cfg"), ("Backoff",)),
+            ("MC_Pool_case", os.path.join(vlib.SPEC, "MC_Pool_case.cfg"), ("CallJoin", "Join", "Backoff", "DeadlineInRound"))]
     if thorough:
         runs.append(("MC_Pool_shared3", write_cfg(wd, "MC_Pool_shared3", spec="Spec", configs="MC_Shared", k=3, dl="required",
                                                   udp="required", tail=INVS), ()))
@@ -120,7 +121,9 @@ def run(res, tier, seed):
     gens = [("G_two", "MC_Two", 1, "connection"), ("G_shared", "MC_Shared", 2, "connection"),
             ("G_busy", "MC_Busy", 1, "connection"), ("G_sock", "MC_Sock", 2, "socket"),
             # the same arrival patterns with a second caller whose query differs from the first one's in the CD bit only
-            ("G_shared_cd", "MC_Shared", 2, "connection")]
+            ("G_shared_cd", "MC_Shared", 2, "connection"),
+            # 0x20 on / off with servers whose UDP replies mangle the letter case
+            ("G_case", "MC_Case", 1, "connection")]
     if thorough:
         gens += [("G_three", "MC_Three", 1, "connection"), ("G_shared3", "MC_Shared", 3, "connection")]
     traces = []
